@@ -74,12 +74,18 @@ Fixpoint lookup_assign (name : string) (l : list node) : option node :=
       end
   end.
 
+(** The operation tags the property documents ([+], [+=], [Tpl]; a method call is tagged with the method's source name):
+    written here, in the specification -- Properties/C15.v proves that the code's constants are these. *)
+Definition documented_add_tag : string := "+".
+Definition documented_add_assign_tag : string := "+=".
+Definition documented_tpl_tag : string := "Tpl".
+
 (** The tag of a hook call whose first argument is [op]; [env] = the assignments of the enclosing
     sequence; [asg] = the hook is the whole right-hand side of an assignment of the same span. *)
 Definition tag_of_operation (op : node) (env : list node) (same_span_assign : bool) : string :=
   match op with
-  | Node (K KBin _ _) _ => if same_span_assign then gen_ADD_ASSIGN_TAG else gen_ADD_TAG
-  | Node (K KTpl _ _) _ => gen_TPL_TAG
+  | Node (K KBin _ _) _ => if same_span_assign then documented_add_assign_tag else documented_add_tag
+  | Node (K KTpl _ _) _ => documented_tpl_tag
   | Node (K KCall _ _) [_; callee; _; _] =>
       match callee with
       | Node (K KMember _ _) [obj; _] =>
